@@ -404,3 +404,12 @@ META.update({
             "trusted_base": TB_COMMON + ["the Rust transliteration of abasic-web/ts/main.ts in the harness (web.rs), tied to main.ts by the generated call skeleton (Gen/Tables.v page_skeleton / page_handlers)"],
             "assumptions": ASSUME_COMMON + ["wasm32 (32-bit usize, 1 MiB stack) is not executed: the adapter runs natively as an rlib; the DOM side (ui.ts) is not modelled; timers fire one at a time"]},
 })
+
+
+from . import refsem  # noqa: E402
+
+META.update({
+    "C03": {"run": refsem.run_c03, "rule": "6 fixed programs (the nested-loop NEXT I example, GOSUB in a colon line, FOR body running once with limit/step fixed at entry, implicit arrays 0..10 and defaults, READ/RESTORE/out of data, dynamic scoping of DEF FN parameters, depth-32 overflow, all ELSE forms incl. transfers in THEN, 3-dimensional strides) + programs generated as SYNTAX TREES over LET, PRINT with ; and , , IF/THEN/ELSE (6 forms, statements before and after on the line), GOTO, GOSUB/RETURN, nested FOR/TO/STEP/NEXT incl. NEXT of the outer loop, READ/DATA/RESTORE, DIM and cells of 1-3 dimensions, DEF FN with nested calls, END, RND, with 0-8%% seeded runtime failures (13 kinds); each rendered to numbered BASIC text for the implementation and to a Coq term for the reference interpreter (Ref/RefSem.v) evaluated inside Coq; compared: every printed record and the final error kind and line; distinct = program text; non-trivial = more than 3 lines",
+            "trusted_base": TB_COMMON + ["Ref/RefSem.v: the reference interpreter on syntax trees (the specification side of C03), evaluated by vm_compute; vlib/refsem.py renders each generated tree both to BASIC text and to a Coq term"],
+            "assumptions": ASSUME_COMMON + ["programs that are still running after 1500 host calls are not compared (the two interpreters count steps differently)", "^ (f64::powf) and INPUT are outside the C03 grammar"]},
+})
